@@ -92,6 +92,10 @@ type T struct {
 	// Span is [first byte, one past last byte) of the node in the printed
 	// text (printer only).
 	Span [2]int
+	// Orig is the parser's own node a converted call came from (FromAst only;
+	// lets a monitor inspect what the linker attached to that very call site).
+	// Not part of identity.
+	Orig any
 }
 
 func Ident(name string) *T   { return &T{K: KIdent, S: name} }
